@@ -212,6 +212,9 @@ func (c *Chip) doGeneralAuthenticate(p *apdu.Command, protected bool, chain bool
 		ps.nonce = c.rand(n)
 		kpi := PacePasswordKey(ps.pwdRef, c.Cfg.MRZInfo, c.Cfg.CAN, cp)
 		z := cbcEncrypt(cp, kpi, make([]byte, blockSize(cp)), ps.nonce)
+		if c.Cfg.PaceReflector {
+			z = c.rand(n) // the reflector knows no password: any cryptogram will do
+		}
 		ps.step = 2
 		return dyn(0x80, c.deviate("pace-enc-nonce", z)), 0x9000
 	case 2: // map nonce (generic mapping)
@@ -260,6 +263,11 @@ func (c *Chip) doGeneralAuthenticate(p *apdu.Command, protected bool, chain bool
 		}
 		ps.pkDHIFD = pkIFD
 		ps.TermKaPubRaw = append([]byte{}, v...)
+		if c.Cfg.PaceReflector {
+			// hostile counterpart without the password: echo the terminal's own agreement key ...
+			ps.step = 4
+			return dyn(0x84, append([]byte{}, v...)), 0x9000
+		}
 		ps.skDH = c.randScalar(cv)
 		if c.Cfg.SteerAgreementLeadingZero {
 			ps.skDH = c.steer(cv, ps.skDH, pkIFD, func(q ecc.Point) bool { return cv.FixedBytes(q.X)[0] == 0 }, "ka-shared-x00")
@@ -288,6 +296,11 @@ func (c *Chip) doGeneralAuthenticate(p *apdu.Command, protected bool, chain bool
 		v, ok := findTLV(items, 0x85)
 		if !ok || chain {
 			return fail(0x6A80)
+		}
+		if c.Cfg.PaceReflector {
+			// ... and echo the terminal's token: with equal keys both tokens are the same MAC
+			ps.step = 0
+			return tlv(0x7C, tlv(0x86, append([]byte{}, v...))), 0x9000
 		}
 		oidB := oidBytes(ps.suite.OID)
 		tokenInput := func(pk ecc.Point) []byte {
